@@ -313,6 +313,16 @@ def _law_sweep_body(ctx, atm, out):
         law("mixed:continuous", rel(vals[1:], vals[:-1]) > 1e-9, [tt[1:]], "mixed continuous at the joints")
         s = float(atm.e_eq_mixed_mk(float(joint)))
         law("mixed:scalar=array", [abs(s - vals[2]) > 0], [np.array([joint])], "scalar and array input agree")
+    # a result handed out stays the caller's (seeded change C09-m: a work array per shape returned as the result): a
+    # later call on another field of the same shape must not change the values of the first answer
+    for fname, a1 in [(f, arg) for f, _g, arg in pairs] + [(f, T) for f in ("e_eq_water_mk", "e_eq_ice_mk", "e_eq_mixed_mk")]:
+        fn = getattr(atm, fname)
+        a1 = np.array(a1, dtype=float)
+        r1 = np.asarray(fn(a1))
+        keep = np.array(r1, copy=True)
+        fn(a1[::-1].copy())
+        law(f"result-kept:{fname}", ~((r1 == keep) | (np.isnan(r1) & np.isnan(keep))), [a1],
+            f"the result of {fname} is unchanged by a later call on another field of the same shape")
     j = find_jump(atm.e_eq_mixed_mk, TT - 24.5, TT + 1.5)
     if j:
         out.append(("mixed:continuous", f"e_eq_mixed_mk jumps by {j[2]:.3g} (relative) between the adjacent doubles {j[0]!r} and {j[1]!r}",
